@@ -249,7 +249,7 @@ pub fn run(ctx: &mut Ctx) {
         let written = if asyncw {
             let pm = l.build_async();
             guard(|| write_async(pm))
-        } else if i % 7 == 5 && l.tiles.len() >= 3 {
+        } else if (i % 7 == 5 || l.class.starts_with("HugeTiles")) && l.tiles.len() >= 3 {
             // same logical archive, built in two sessions with a save + reopen in between: tiles are added
             // next to (and over) tiles that are still backed by the opened archive
             ctx.count("archives_built_in_two_sessions");
